@@ -621,6 +621,20 @@ func (c *FnCtx) finishReturn(st *State, vals []string, pos token.Pos) {
 		return
 	}
 	c.npaths++
+	if c.con != nil {
+		// ghost history effects of the contract (`records g += expr`)
+		for _, r := range c.con.Records {
+			base := ghostBase(c.pkg, r.Fld)
+			srt := c.ghostSort(c.pkg, r.Fld)
+			args := map[string]string{}
+			for _, n := range r.Params {
+				args[n] = c.paramTerms[n]
+			}
+			obj := c.evalSynth(r.GoFn, c.pkg, args, c.entry, true)
+			c.heapSort[base] = srt
+			c.setH(st, base, srt, store(c.h(st, base, srt), obj, "true"))
+		}
+	}
 	c.checkPost(st, vals, pos)
 }
 
